@@ -33,6 +33,8 @@ def _partition_block(fn):
 
 def run(model, rep, tier):
     rep.explanation = __doc__.strip()
+    from ._common import caches_for
+    caches_for(model, rep, 'C24')
     rep.not_decided = 'that the states generated are exactly those reachable in N jumps; that orbits are complete for every crystal'
     rep.rule('memo-key-complete', 'an early-return guard compares every parameter the skipped body reads')
     rep.rule('sibling-partition', 'the star-partition block is identical in generate / __iadd__ / diffgenerate and spans all of crys.G')
